@@ -95,7 +95,10 @@ CHECKS = {
         "extraction from runtime objects: per kind of callable object x access path the receiver transformation "
         "(signature_from_value -> _uncached_get_argspec -> make_bound_method / bind_self) followed by the binder, against what "
         "evaluating the call does under CPython; cases realised as real source checked by the visitor (same and importing "
-        "module) and really performed",
+        "module) and really performed; StarPrep.tla / StarPrepTrace.tla model the preprocessing of INFERRED star arguments "
+        "(_preprocess_kwargs_kv_pairs, _preprocess_kwargs_no_mvv, concrete_values_from_iterable, merging into ActualArguments with "
+        "possibly-provided keywords) against every expansion of the opaque inputs; each case realised with cond()-guarded "
+        "spreads whose inferred value is read back and compared with the case, and every expansion really executed",
         text="Model checking: TLC proves verdict <=> CPython binding for every signature of <=3 (quick) / <=4 and <=5 (thorough) "
         "parameters x call shapes incl. */** literals, and accept => exists expansion / reject => no non-empty expansion for "
         "list[int]/tuple[int,...]/dict[str,int] star arguments, outside two named deviation classes; 6 parameters by simulation; "
@@ -105,7 +108,11 @@ CHECKS = {
         "with __init__ / __new__ / both / inherited / none, dataclass, NamedTuple, partial; <=2 quick / <=3 thorough parameters "
         "beyond the receiver) TLC proves that the receiver transformation followed by the binder agrees with CPython's call "
         "semantics outside three further named classes and two unchecked-by-design kinds; replayed through the real visitor "
-        "and real calls (10k observations quick).",
+        "and real calls (10k observations quick). Star-argument preprocessing: ** of dict displays with required / optional / "
+        "duplicate / non-literal keys, TypedDicts with NotRequired keys, unions of dict literals, * of tuples with unpacked "
+        "segments and length unions (67k states, 9.3k cases replayed with 30k executed expansions in quick; 2.2M states "
+        "thorough); single expansion: iff clause, otherwise the property's existential accept / reject clauses; four further "
+        "named classes.",
         design="2/C05",
         note=TRUSTED + " Arguments are ints and parameters are unannotated; keywords range over parameter names + one foreign "
         "name; the existential clause enumerates expansions up to max(4, number of parameters); in the kinds slice receiver "
@@ -219,7 +226,9 @@ CHECKS = {
         "Begin/Diag/End/Raised event stream validated by TLC (TotalityTrace.tla); the public value API is exercised on "
         "TLC-generated pairs of Values (Assign.tla's generator plus TotalityValues.tla: odd KnownValues, bound methods with odd "
         "parameter lists, partials, overloads, Callable signatures, Annotated / extension terms, TypeVars, unpacked sequences; 12 "
-        "binary and 25 unary operations per pair; pyanalyze.runtime functions on (object, type) pairs)",
+        "binary and 25 unary operations per pair; pyanalyze.runtime functions on (object, type) pairs); a constant-folding family "
+        "(342 operations the checker EXECUTES on known constants: f-string specs and conversions, % and str.format, numeric / "
+        "bytes / range calls, unary and binary operators x 21 constants up to 2**1024 and 1e999; 26k expressions in quick)",
         text="Exploration with a TLA+ generator and acceptance automaton: every single fragment exhaustively (1.4k modules x 2 "
         "configurations), nestings and sequences by TLC simulation, 1.7k layouts, ~13k (quick) value pairs through can_assign / "
         "unite_values / substitute_typevars / str / hash / simplify / runtime API; every diagnostic's position and rendered "
